@@ -610,6 +610,7 @@ type gFrag struct {
 	name string
 	cond string
 	sels []*gSel
+	done bool // generation complete (may be spread again)
 }
 
 type gOp struct {
@@ -633,6 +634,7 @@ type docOpts struct {
 	collisions      bool // allow repeated response keys
 	abstract        bool // fragments on related / unrelated types (not only the container type)
 	maxDepth        int
+	nestedFrags     bool // named fragments spread other named fragments and are spread more than once (acyclic)
 	anonAmongOthers bool // sometimes leave one of several operations without a name (C01)
 	unknownOp       bool // sometimes pass an operation name the document does not define
 	fewDirs         bool // at most one, literal-conditioned directive per selection
@@ -773,11 +775,25 @@ func (d *gDoc) genSels(r *Rng, s *gSchema, ty string, depth int, o docOpts, inFr
 				sel.sels = d.genSels(r, s, ct, depth, o, inFrag)
 			}
 			out = append(out, sel)
-		case !inFrag && depth <= 2:
+		case (!inFrag || (o.nestedFrags && len(d.frags) < 6 && r.Chance(40))) && depth <= 2:
 			// named fragment
 			cond := ty
 			if o.abstract && r.Chance(50) {
 				cond = d.pickCond(r, s, ty)
+			}
+			// (nestedFrags) a fragment that is already complete is spread again — from another place of the
+			// document, from another fragment (a diamond), next to itself: none of that is a cycle
+			if o.nestedFrags && r.Chance(35) {
+				var done []*gFrag
+				for _, f := range d.frags {
+					if f.done && f.cond == cond {
+						done = append(done, f)
+					}
+				}
+				if len(done) > 0 {
+					out = append(out, &gSel{kind: "spread", spread: Pick(r, done).name, dirs: d.genDirs(r)})
+					continue
+				}
 			}
 			fr := &gFrag{name: fmt.Sprintf("F%d", len(d.frags)), cond: cond}
 			d.frags = append(d.frags, fr)
@@ -786,6 +802,7 @@ func (d *gDoc) genSels(r *Rng, s *gSchema, ty string, depth int, o docOpts, inFr
 			} else {
 				fr.sels = d.genSels(r, s, cond, depth, o, true)
 			}
+			fr.done = true
 			out = append(out, &gSel{kind: "spread", spread: fr.name, dirs: d.genDirs(r)})
 		}
 	}
